@@ -31,7 +31,7 @@ def gen_case(rng, i, tier):
     n = rng.choice([2, 2, 3, 3, 4])
     root = rng.choice(['map', 'map', 'map', 'list'])
     layers = gen.chain(rng, n, labels, root=root, nulls=True, hostile=rng.choice([0.0, 0.1, 0.25]), fold=fold1)
-    return {'layers': layers, 'labels': sorted(labels), 'cli': (i % 97 == 0)}
+    return {'layers': layers, 'labels': sorted(labels), 'cli': (i % 41 == 0)}
 
 
 def _comps(n):
@@ -238,14 +238,23 @@ def cli_check(ctx, case, res, cur, final):
     """Same chain as layer files a.json, a.b.json, ... through the real binary."""
     import os
     from ..core import cli
+    import random
+    from .. import ser
+    rng = random.Random(json.dumps(case['layers'], sort_keys=True))
     d = ctx.casedir()
     name = 'a'
+    ext = 'json'
     for i, l in enumerate(case['layers']):
         if i:
             name += '.l%d' % i
-        with open(os.path.join(d, name + '.json'), 'w') as f:
-            json.dump(l, f)
-    r = cli([ctx.bin('bkl'), '-f', 'json', name + '.json'], cwd=d)
+        ext = rng.choice(['json', 'yaml', 'yml', 'toml'])
+        if ext == 'toml' and not ser.toml_ok(l):
+            ext = 'yaml'
+        if ext in ('yaml', 'yml') and not isinstance(l, (dict, list)):
+            ext = 'json'
+        with open(os.path.join(d, name + '.' + ext), 'w') as f:
+            f.write(ser.write(ext, [l], rng))
+    r = cli([ctx.bin('bkl'), '-f', 'json', name + '.' + ext], cwd=d)
     res.execs += 1
     res.labels.add('via:cli')
     bad = has_marker(final) or any(s == '$value' or s.startswith('$merge') or s.startswith('$replace:') for s in strings_of(cur))
